@@ -864,6 +864,12 @@ class FuelHandler:
             raise ValueError(
                 "Cannot discharge {}: it is not in the core.".format(outgoing)
             )
+        if incoming.parent is self.r.core:
+            raise ValueError(
+                "Cannot charge {}: it is in the core already (see swapAssemblies).".format(
+                    incoming
+                )
+            )
 
         # add assemblies into the moved location
         # keep it unique so we don't get artificially inflated numMoves
